@@ -37,10 +37,11 @@ const (
 	opRemoveAddr
 	opPromisc
 	opSubnet
+	opSpoof
 	nOps
 )
 
-var opNames = [nOps]string{"inject", "udp-bind", "udp-connect", "tcp-listen", "tcp-active", "raw-register", "close", "add-addr", "remove-addr", "promiscuous", "subnet"}
+var opNames = [nOps]string{"inject", "udp-bind", "udp-connect", "tcp-listen", "tcp-active", "raw-register", "close", "add-addr", "remove-addr", "promiscuous", "subnet", "spoofing"}
 
 // Step is one operation. Fields that an operation does not use are ignored.
 // Every index is reduced modulo its pool, so any file is a runnable case.
@@ -128,6 +129,7 @@ type seqRun struct {
 	allRaw  []*msock
 	tainted map[string]bool // TCP 4-tuples whose endpoint may linger after the socket was closed / aborted
 	pinned  map[tcpip.Address]bool
+	spoofed bool            // address spoofing has been switched on for some interface
 	former  []ident         // identities that sockets held and gave up (Close, Connect): nobody holds them now unless re-opened
 	peers   map[string]bool // every 4-tuple a handshake was completed (or attempted by the stack) on
 	exps    []*tcpExp
@@ -267,6 +269,13 @@ func (r *seqRun) localArg(st Step, v6 bool) (tcpip.Address, bool) {
 	a := laddrs[mod(st.Addr, nAssignable)].A
 	if isV6(a) != v6 {
 		return "", false
+	}
+	if r.spoofed {
+		// with address spoofing enabled a socket operation that names a local address
+		// the interface does not own creates a temporary address entry, which the
+		// inbound path then serves while a route references it (the mechanism of F22):
+		// injections to such an address are excluded by construction
+		r.pinned[a] = true
 	}
 	return a, true
 }
@@ -1236,6 +1245,14 @@ func runSeqOnce(c SeqCase) (f *evid.Failure, liveness bool) {
 			}
 		case opSubnet:
 			r.opSubnet(st)
+		case opSpoof:
+			// address spoofing concerns the source addresses of what the stack sends; what
+			// an interface accepts does not depend on it
+			n := r.nicArg(st)
+			if r.w.s.SetSpoofing(tcpip.NICID(n), st.On) == nil && st.On {
+				evid.Label("op:spoofing-on")
+				r.spoofed = true
+			}
 		}
 		if f != nil {
 			return f, live
@@ -1356,12 +1373,15 @@ func genStep(rt *rapid.T, op int) Step {
 		st.NIC = rapid.IntRange(1, 2).Draw(rt, "nic")
 		st.Sub = pick("sub", len(subnets))
 		st.On = pick("on", 4) > 0
+	case opSpoof:
+		st.NIC = rapid.IntRange(1, 2).Draw(rt, "nic")
+		st.On = pick("on", 4) > 0
 	}
 	return st
 }
 
 var opWeights = func() []int {
-	w := map[int]int{opInject: 40, opUDPBind: 10, opUDPConnect: 9, opTCPListen: 8, opTCPActive: 3, opRawReg: 14, opClose: 7, opAddAddr: 3, opRemoveAddr: 3, opPromisc: 3, opSubnet: 4}
+	w := map[int]int{opInject: 40, opUDPBind: 10, opUDPConnect: 9, opTCPListen: 8, opTCPActive: 3, opRawReg: 14, opClose: 7, opAddAddr: 3, opRemoveAddr: 3, opPromisc: 3, opSubnet: 4, opSpoof: 3}
 	var out []int
 	for op := 0; op < nOps; op++ {
 		for k := 0; k < w[op]; k++ {
